@@ -28,6 +28,7 @@ import (
 	"sync/atomic"
 	"time"
 
+	"k8s.io/apimachinery/pkg/labels"
 	"k8s.io/klog"
 
 	proxyv1alpha1 "github.com/kubewharf/kubegateway/pkg/apis/proxy/v1alpha1"
@@ -53,7 +54,7 @@ type Req struct {
 }
 
 type Op struct {
-	K       string   `json:"k"` // sync | set | resize | acq | del
+	K       string   `json:"k"` // sync | set | resize | acq | del | hb | cond | sweep | unknown
 	Schemas []Schema `json:"schemas,omitempty"`
 	FC      string   `json:"fc,omitempty"`   // hex
 	Inst    string   `json:"inst,omitempty"` // hex
@@ -62,6 +63,7 @@ type Op struct {
 	N       int32    `json:"n"`
 	Burst   int32    `json:"burst"`
 	Reqs    []Req    `json:"reqs,omitempty"`
+	Stale   []string `json:"stale,omitempty"` // sweep: the recorded clients (hex) that are past the heartbeat time-out
 	Nows    []int64  `json:"nows,omitempty"`
 }
 
@@ -124,6 +126,7 @@ func otherFailures(c *rig.Ctx) int { return nJudge }
 
 type world struct {
 	store _interface.LimitStore
+	rig   *limiter.VerifC08Rig
 	rl    limiter.RateLimiter
 	// a flow control's unexported state could not be read (representation changed): a broken tie
 	notUnderstood bool
@@ -131,7 +134,8 @@ type world struct {
 
 func newWorld() *world {
 	s := local.NewLocalStore()
-	return &world{store: s, rl: limiter.VerifC08RateLimiter(s, true)}
+	rig := limiter.VerifC08NewRig(s, true, cluster)
+	return &world{store: s, rig: rig, rl: rig.Limiter()}
 }
 
 type FCSnap struct {
@@ -142,6 +146,20 @@ type FCSnap struct {
 	States [][]interface{} `json:"states"`
 	QPS    int32           `json:"qps"`
 	Burst  int32           `json:"burst"`
+}
+
+// known: the heartbeat table and the instances of the stored conditions (hex, sorted)
+func (w *world) known() (clients, conds []string) {
+	clients, conds = []string{}, []string{}
+	for _, c := range w.rig.Clients() {
+		clients = append(clients, rig.Hex(c))
+	}
+	for _, cd := range w.store.List(labels.Everything()) {
+		conds = append(conds, rig.Hex(cd.Spec.Instance))
+	}
+	sort.Strings(clients)
+	sort.Strings(conds)
+	return
 }
 
 func (w *world) snapshot() []FCSnap {
@@ -283,6 +301,27 @@ func (w *world) exec(op Op) (reply interface{}, panicMsg string) {
 			reply = fc.Resize(op.N, op.Burst)
 		case "del":
 			w.store.DeleteInstanceState(rig.UnHex(op.Inst))
+		case "hb":
+			w.rl.Heartbeat(rig.UnHex(op.Inst))
+		case "cond":
+			// a rate-limit condition of this instance in the store, as UpdateRateLimitConditionStatus leaves it
+			inst := rig.UnHex(op.Inst)
+			cd := &proxyv1alpha1.RateLimitCondition{}
+			cd.Name = "c-" + op.Inst
+			cd.Labels = map[string]string{limiter.RateLimitConditionInstanceLabel: inst}
+			cd.Spec.UpstreamCluster = cluster
+			cd.Spec.Instance = inst
+			w.store.Save(cluster, cd)
+		case "sweep":
+			stale := []string{}
+			for _, h := range op.Stale {
+				stale = append(stale, rig.UnHex(h))
+			}
+			if err := w.rig.SweepTimeout(stale); err != nil {
+				reply = "error:" + err.Error()
+			}
+		case "unknown":
+			w.rig.CleanupUnknown()
 		case "acq":
 			acq := &proxyv1alpha1.RateLimitAcquire{Spec: proxyv1alpha1.RateLimitAcquireSpec{Instance: rig.UnHex(op.Inst), RequestID: op.Rid}}
 			for _, r := range op.Reqs {
@@ -363,65 +402,145 @@ type obs struct {
 	// "newest request id already processed" per (flow control, instance) BEFORE the op
 	JSnap []FCSnap        `json:"jsnap"`
 	Ghost [][]interface{} `json:"ghost"`
+	// the heartbeat table and the instances with a stored condition (compared with the model)
+	Clients []string `json:"clients"`
+	Conds   []string `json:"conds"`
 }
 
-// ghostIDs: per flow control and instance, the newest positive request id of a report that the server answered
-// without an error since the instance was last removed / the flow control (re)created. Tracked from the ops and
-// the replies alone: it is what the property calls "a request id already processed for that instance".
-type ghostIDs map[string]map[string]int64
+// ghostAcc is the harness's own record, PER EXACT INSTANCE IDENTITY, of what the server has told the instances:
+// for every max-in-flight flow control and instance the latest count the server registered for it according to its
+// replies (accepted: the count reported; not accepted: the `latest` it answered; an error: nothing changes) and the
+// newest positive request id it answered without an error, since the instance was last removed (by a negative report,
+// DeleteInstanceState, a heartbeat time-out sweep or the clean-up of unknown clients) / the flow control (re)created.
+// The judge's states are these, never the map the code keeps: "per instance" means per exact identity.
+type ghostEntry struct {
+	count  int64
+	lastID int64
+}
 
-func (g ghostIDs) list() [][]interface{} {
+type ghostAcc map[string]map[string]*ghostEntry
+
+func (g ghostAcc) list() [][]interface{} {
 	out := [][]interface{}{}
 	for fc, m := range g {
-		for inst, id := range m {
-			out = append(out, []interface{}{fc, inst, id})
+		for inst, e := range m {
+			if e.lastID > 0 {
+				out = append(out, []interface{}{fc, inst, e.lastID})
+			}
 		}
 	}
 	sort.Slice(out, func(i, j int) bool { return fmt.Sprint(out[i]) < fmt.Sprint(out[j]) })
 	return out
 }
 
-func (g ghostIDs) processed(fc, inst string, rid int64, cur int32, errKind string) {
+// states of one flow control in the shape of a snapshot: [inst, count, lastId], sorted
+func (g ghostAcc) states(fc string) [][]interface{} {
+	insts := []string{}
+	for i := range g[fc] {
+		insts = append(insts, i)
+	}
+	sort.Strings(insts)
+	out := [][]interface{}{}
+	for _, i := range insts {
+		out = append(out, []interface{}{i, g[fc][i].count, g[fc][i].lastID})
+	}
+	return out
+}
+
+func (g ghostAcc) report(fc, inst string, rid int64, cur int32, accept bool, latest int32, errKind string) {
 	if cur < 0 {
 		delete(g[fc], inst)
 		return
 	}
-	if errKind != "" || rid <= 0 {
+	if errKind != "" {
 		return
 	}
 	if g[fc] == nil {
-		g[fc] = map[string]int64{}
+		g[fc] = map[string]*ghostEntry{}
 	}
-	if rid > g[fc][inst] {
-		g[fc][inst] = rid
+	e := g[fc][inst]
+	if e == nil {
+		e = &ghostEntry{}
+		g[fc][inst] = e
+	}
+	if accept {
+		e.count = int64(cur)
+	} else {
+		e.count = int64(latest)
+	}
+	if rid > e.lastID {
+		e.lastID = rid
 	}
 }
 
-// update after one op. mifBefore: the max-in-flight flow controls that existed before the op.
-func (g ghostIDs) update(op Op, reply interface{}, mifBefore map[string]bool, conf *confTracker, reset map[string]bool) {
+func (g ghostAcc) remove(inst string) {
+	for _, m := range g {
+		delete(m, inst)
+	}
+}
+
+// update after one op. mifBefore: the max-in-flight flow controls that existed before the op; clientsBefore /
+// condsBefore: the heartbeat table and condition instances as the HARNESS tracks them.
+func (g ghostAcc) update(op Op, reply interface{}, mifBefore map[string]bool, conf *confTracker, reset map[string]bool, known *knownTracker) {
 	switch op.K {
 	case "set":
 		if r, ok := reply.(setReply); ok && mifBefore[op.FC] {
-			g.processed(op.FC, op.Inst, op.Rid, op.Cur, r.Err)
+			g.report(op.FC, op.Inst, op.Rid, op.Cur, r.Accept, r.Latest, r.Err)
 		}
 	case "acq":
 		if rs, ok := reply.([]acqReply); ok {
 			for k, r := range rs {
 				if k < len(op.Reqs) && mifBefore[op.Reqs[k].FC] && op.Reqs[k].Tokens >= 0 {
-					g.processed(op.Reqs[k].FC, op.Inst, op.Rid, op.Reqs[k].Tokens, r.Err)
+					g.report(op.Reqs[k].FC, op.Inst, op.Rid, op.Reqs[k].Tokens, r.Accept, r.Limit, r.Err)
 				}
 			}
 		}
 	case "del":
-		for _, m := range g {
-			delete(m, op.Inst)
-		}
+		g.remove(op.Inst)
+	}
+	for _, inst := range known.apply(op) {
+		g.remove(inst)
 	}
 	for fc := range g {
 		if f, ok := conf.fcs[fc]; !ok || f.typ != "mif" || reset[fc] {
 			delete(g, fc)
 		}
 	}
+}
+
+// knownTracker restates from the ops alone which instances have a heartbeat on record and which have a stored
+// condition; apply returns the instances an op removes through the server's own clean-up paths.
+type knownTracker struct {
+	clients, conds map[string]bool
+}
+
+func newKnownTracker() *knownTracker {
+	return &knownTracker{clients: map[string]bool{}, conds: map[string]bool{}}
+}
+
+func (k *knownTracker) apply(op Op) (removed []string) {
+	switch op.K {
+	case "hb":
+		k.clients[op.Inst] = true
+	case "cond":
+		k.conds[op.Inst] = true
+	case "sweep":
+		for _, i := range op.Stale {
+			if k.clients[i] {
+				delete(k.clients, i)
+				delete(k.conds, i)
+				removed = append(removed, i)
+			}
+		}
+	case "unknown":
+		for i := range k.conds {
+			if !k.clients[i] && i != "" {
+				delete(k.conds, i)
+				removed = append(removed, i)
+			}
+		}
+	}
+	return
 }
 
 type runResult struct {
@@ -444,7 +563,8 @@ func runSeq(c *rig.Ctx, cs Case, record bool) runResult {
 	var observations []obs
 	epochs := map[string]*tbEpoch{}
 	conf := newConfTracker()
-	ghost := ghostIDs{}
+	ghost := ghostAcc{}
+	known := newKnownTracker()
 	for i, op := range cs.Ops {
 		ghostBefore := ghost.list()
 		mifBefore := map[string]bool{}
@@ -483,14 +603,27 @@ func runSeq(c *rig.Ctx, cs Case, record bool) runResult {
 			}
 		}
 		reset := updateEpochs(epochs, conf, op, i)
-		ghost.update(op, reply, mifBefore, conf, reset)
+		nClientsBefore := len(known.clients)
+		ghost.update(op, reply, mifBefore, conf, reset, known)
+		switch op.K {
+		case "sweep":
+			res.features[fmt.Sprintf("sweep-removes-%d-of-%d-known", min(nClientsBefore-len(known.clients), 3), min(nClientsBefore, 4))] = true
+		case "unknown":
+			res.features["cleanup-unknown"] = true
+		}
+		if len(op.Inst) > 120 {
+			res.features["identity-longer-than-60-bytes"] = true
+		}
 		jsnap := append([]FCSnap{}, snap...)
 		for k := range jsnap {
 			if f, ok := conf.fcs[jsnap[k].Name]; ok && f.typ == "mif" && jsnap[k].T == "mif" {
 				jsnap[k].Max = f.q // judged against the limit that was configured, not the one the code stored
+				// … and against the harness's own per-exact-identity record of what the server accepted, not the code's map
+				jsnap[k].States = ghost.states(jsnap[k].Name)
 			}
 		}
-		observations = append(observations, obs{Reply: reply, Snap: snap, JSnap: jsnap, Ghost: ghostBefore})
+		cl, cds := w.known()
+		observations = append(observations, obs{Reply: reply, Snap: snap, JSnap: jsnap, Ghost: ghostBefore, Clients: cl, Conds: cds})
 		for _, ep := range epochs {
 			if ep.sameResizes > 0 && len(ep.grants) > 0 {
 				res.features["tb-window-spans-resync"] = true
@@ -508,8 +641,10 @@ func runSeq(c *rig.Ctx, cs Case, record bool) runResult {
 	slow := time.Since(t0) > 400*time.Millisecond
 	var m struct {
 		Model []struct {
-			Reply json.RawMessage `json:"reply"`
-			Snap  json.RawMessage `json:"snap"`
+			Reply   json.RawMessage `json:"reply"`
+			Snap    json.RawMessage `json:"snap"`
+			Clients []string        `json:"clients"`
+			Conds   []string        `json:"conds"`
 		} `json:"model"`
 		Judge []string `json:"judge"`
 	}
@@ -587,6 +722,12 @@ func runSeq(c *rig.Ctx, cs Case, record bool) runResult {
 		}
 		if rig.Canon(is) != rig.Canon(ms) {
 			return fail("diff", "c08.state", fmt.Sprintf("after op %d %s: code state %s, model state %s", i, rig.Canon(op), rig.Canon(is), rig.Canon(ms)), is, ms)
+		}
+		mc, md := append([]string{}, m.Model[i].Clients...), append([]string{}, m.Model[i].Conds...)
+		sort.Strings(mc)
+		sort.Strings(md)
+		if rig.Canon(mc) != rig.Canon(observations[i].Clients) || rig.Canon(md) != rig.Canon(observations[i].Conds) {
+			return fail("diff", "c08.known", fmt.Sprintf("after op %d %s: heartbeat table / condition instances: code %v / %v, model %v / %v", i, rig.Canon(op), observations[i].Clients, observations[i].Conds, mc, md), nil, nil)
 		}
 		// features for the histogram / non-triviality
 		switch r := observations[i].Reply.(type) {
